@@ -20,6 +20,12 @@ import KavaVerif.Model.Accumulator
   c09.sum    src T s                                Σ source shares = total source shares
   c09.sumle  src T s                                Σ listed users' shares ≤ total (delegations: the validator's own)
   c09.bound  src nusers nsyncs emission sumT credited
+  c09.bound  src nusers nsyncs emission sumT credited extra     the same with a further allowance `extra` (10^-36 reward
+                                                    units) that the harness derives from the source module's own rounding
+                                                    (validators world: unhooked rounding drift of x/staking's tokens per share)
+  c09.vsum   src T ndelegations s                   |Σ accounts' bonded tokens − bonded pool| ≤ one rounding per delegation
+  c09.vevent src actor I s i r => cls I' s' i' r' drift driftSync   one message of account `actor`, or a validator event / end block
+                                                    (actor "-"), lists over ALL delegators (validators world, harness validators.go)
   c09.integral src u nsyncU gained flo slack        the owner's synchronised claim against the harness's own time integral
                                                     (multi-instance world: summed over the instances of the claim object
                                                      that credit the reward denom)
@@ -287,6 +293,14 @@ def handleSumLe : Handler
     2·P²·credited ≤ 2·P·emission + ΣT + (nsyncs + nusers)·(P² + P)
     (emission = Σ_b rate·secs_b as a Dec mantissa over blocks with T_b > 0, ΣT = Σ_b T_b mantissas) -/
 def handleBound : Handler
+  | [src, nusers, nsyncs, emission, sumT, credited, extra] =>
+    -- the same bound with a further allowance `extra` (10^-36 reward units, i.e. index mantissa × share mantissa)
+    match int? nusers, int? nsyncs, int? emission, int? sumT, int? credited, int? extra with
+    | some nu, some ns, some em, some sT, some cr, some ex =>
+      if ex < 0 then badInput "extra"
+      else if 2 * P * P * cr ≤ 2 * P * em + sT + (ns + nu) * (P * P + P) + 2 * ex then "ok"
+      else predfail "C09_no_over_distribution" s!"credited-exceeds-emission src={src} credited={cr} emission={em / P}"
+    | _, _, _, _, _, _ => badInput "parse"
   | [src, nusers, nsyncs, emission, sumT, credited] =>
     match int? nusers, int? nsyncs, int? emission, int? sumT, int? credited with
     | some nu, some ns, some em, some sT, some cr =>
@@ -431,6 +445,88 @@ def handleMClaim : Handler
     | _, _, _, _, _, _, _, _, _ => badInput "parse"
   | _ => badInput "arity"
 
+/-! ### the delegator source with several validators (harness validators.go) -/
+
+/-- Σ over ALL delegators of their tokens delegated to bonded validators against the bonded pool the module
+    divides by: equal up to one 18-decimal rounding of `TokensFromShares` per delegation -/
+def handleVSum : Handler
+  | [src, T, nd, s] =>
+    match int? T, int? nd, ints? s with
+    | some T, some nd, some s =>
+      let tot := s.foldl (· + ·) 0
+      if tot > T + nd then predfail "C09_shares_sum" s!"{kindOf src}-delegators-bonded-tokens-exceed-bonded-pool src={src} sum={tot} T={T}"
+      else if tot < T - nd then predfail "C09_shares_sum" s!"{kindOf src}-delegators-bonded-tokens-below-bonded-pool src={src} sum={tot} T={T}"
+      else "ok"
+    | _, _, _ => badInput "parse"
+  | _ => badInput "arity"
+
+/-- One staking message of account `actor`, or one validator event (jail, unjail, slash, end-block validator set
+    update; actor "-"), observed on ALL delegators; `s` = tokens delegated to BONDED validators as the harness reads
+    them from x/staking before / after.  `C09_frame` / `C09_frame_own` with the reading "a validator leaving or
+    entering the bonded set, or being slashed, is a change of every one of its delegators' source shares, hook first":
+    the global index does not move; every account is either left alone or credited exactly the pending reward of
+    its PRE-event shares (stored index := global index); an account whose shares changed by more than `drift`
+    (x/staking's own rounding when somebody else unbonds) was credited that way; a message of one account leaves
+    every other account's claim alone and moves nobody else's shares by more than `drift`.
+    `driftSync` (zero except for a slash that reaches back to redelegations): x/staking unbonds the redelegated
+    stake at the destination validators BEFORE it calls the slash hook, one unbonding per redelegation entry, each
+    of which leaves < 1 token of truncation with the destination's remaining delegators; the shares the hook
+    sees may exceed the pre-event shares by that much, so the credited amount may differ from the pending reward
+    by (I − i)·driftSync. -/
+def handleVEvent : Handler
+  | [src, actor, I, s, i, r, _, cls, I', s', i', r', drift, driftSync] =>
+    match int? I, ints? s, optInts? i, ints? r, int? drift, int? driftSync with
+    | some I, some s, some i, some r, some drift, some driftSync =>
+      let kd := kindOf src
+      let n := s.length
+      if cls != "ok" then
+        -- a failed message / a panicking event is rolled back: nothing may change
+        if s' == showInts s && r' == showInts r && I' == toString I && optInts? i' == some i then "ok"
+        else predfail "C09_frame" s!"{kd}-failed-op-changed-state src={src}"
+      else
+      match int? I', ints? s', optInts? i', ints? r' with
+      | some I', some s', some i', some r' =>
+        let σ := mkSt I 0 0 s i r
+        let who : Option Nat := nat? actor
+        if I' != I then predfail "C09_frame" s!"{kd}-global-index-moved-outside-accumulation src={src}"
+        else
+        let bad := (range n).findSome? fun v =>
+          let pend := pending σ v
+          let rv := r.getD v 0
+          let rv' := r'.getD v 0
+          let ds := s'.getD v 0 - s.getD v 0
+          let own := who == some v
+          let changed := if own then ds != 0 else (ds > drift || ds < -drift)
+          let tol := if driftSync > 0 then ((I - (σ.u v).i) * driftSync) / (P * P) + 1 else 0
+          let synced := rv + pend - tol ≤ rv' && rv' ≤ rv + pend + tol && idxEq I (s'.getD v 0) (i'.getD v none)
+          let untouched := rv' == rv && i'.getD v none == i.getD v none
+          if rv' < rv then some ("C09_frame", s!"{kd}-accrued-reward-decreased src={src} account={v}")
+          else if who.isSome && !own && !untouched then
+            some ("C09_frame", s!"{kd}-message-changed-another-delegators-claim src={src} account={v} was={rv} is={rv'}")
+          else if who.isSome && !own && changed then
+            some ("C09_frame", s!"{kd}-message-changed-another-delegators-shares src={src} account={v} by={ds}")
+          else if changed && !synced then
+            some ("C09_frame_own", s!"{kd}-share-change-without-sync-of-pre-change-shares src={src} account={v} want={rv + pend} got={rv'} shares={s.getD v 0}->{s'.getD v 0}")
+          else if !synced && !untouched then
+            some ("C09_frame_own", s!"{kd}-reward-changed-by-other-than-pending-of-bonded-shares src={src} account={v} want={rv + pend} got={rv'} bonded-shares={s.getD v 0}")
+          else none
+        match bad with
+        | some (thm, t) => predfail thm t
+        | none =>
+          -- model: the hook (a synchronisation with the pre-event shares) for every account that was credited
+          if driftSync > 0 then "ok" else
+          allOk ((range n).map fun v =>
+            if r'.getD v 0 == r.getD v 0 && i'.getD v none == i.getD v none then "ok"
+            else match sync σ v with
+              | .ok σ' =>
+                allOk [expectEq s!"r{v}" (toString (σ'.u v).r) (toString (r'.getD v 0)),
+                       if idxEq (σ'.u v).i (s'.getD v 0) (i'.getD v none) then "ok"
+                       else mismatch s!"i{v}" (toString (σ'.u v).i) (toString (i'.getD v none))]
+              | res => mismatch "class" (clsOf res) cls)
+      | _, _, _, _ => badInput "post"
+    | _, _, _, _, _, _ => badInput "parse"
+  | _ => badInput "arity"
+
 def handleSecs : Handler
   | [d, _, secs] =>
     match int? d with
@@ -454,6 +550,8 @@ def handlers : List (String × Handler) := [
   ("c09.integral", handleIntegral),
   ("c09.mchange", handleMChange),
   ("c09.mpend", handleMPend),
-  ("c09.mclaim", handleMClaim)
+  ("c09.mclaim", handleMClaim),
+  ("c09.vsum", handleVSum),
+  ("c09.vevent", handleVEvent)
 ]
 end Drv.C09
